@@ -423,6 +423,32 @@ class _resolve_called_lambdas(ast.NodeTransformer):
         self._arg_map_list.pop()
         return result
 
+    def _visit_comprehension(self, node: Any) -> Any:
+        "The loop variables of a comprehension hide outer arguments of the same name"
+        generators = node.generators
+        # The first iterable is evaluated in the enclosing scope
+        generators[0].iter = self.visit(generators[0].iter)
+        loop_vars = [
+            n.id for g in generators for n in ast.walk(g.target) if isinstance(n, ast.Name)
+        ]
+        self._arg_map_list.append({name: None for name in loop_vars})
+        for index, g in enumerate(generators):
+            if index > 0:
+                g.iter = self.visit(g.iter)
+            g.ifs = [self.visit(c) for c in g.ifs]
+        if isinstance(node, ast.DictComp):
+            node.key = self.visit(node.key)
+            node.value = self.visit(node.value)
+        else:
+            node.elt = self.visit(node.elt)
+        self._arg_map_list.pop()
+        return node
+
+    visit_ListComp = _visit_comprehension
+    visit_SetComp = _visit_comprehension
+    visit_GeneratorExp = _visit_comprehension
+    visit_DictComp = _visit_comprehension
+
     def visit_Name(self, node: ast.Name) -> Any:
         "Look through the arg map to see if it is a argument"
         for arg_map in reversed(self._arg_map_list):
